@@ -199,7 +199,7 @@ fn run(f: &[String]) -> String {
                     }
                 }
                 let max: usize = f[3].parse().unwrap();
-                let stdin_text = if f.len() > 4 { f[4].replace("\\n", "\n") } else { String::new() };
+                let stdin_text = if f.len() > 4 { f[4].replace("\\n", "\n").replace("\\r", "\r") } else { String::new() };
                 let mut ipt = CustomReader::new(stdin_text);
                 let mut o: Vec<u8> = Vec::new();
                 let mut e: Vec<u8> = Vec::new();
